@@ -106,6 +106,10 @@ pub fn inputs(_seed: u64, open: &[String]) -> impl Iterator<Item = Value> {
     if !open.iter().any(|x| x == "C09-selection-on-typename") {
         v.push(json!({"query": "{ __typename { x } }", "valid": false}));
     }
+    // unknown types in variable definitions, wrapped or not, with and without defaults
+    for q in ["query($v: Foo) { value }", "query($v: [Foo]) { value }", "query($v: [Foo!]! = [1]) { value }", "query($v: [Foo] = [1]) { value }", "query($v: [[Foo]] = null) { value }", "query($v: Foo = 1) { value }"] {
+        v.push(json!({"query": q, "valid": false}));
+    }
     if !skip_var_pos {
         v.push(json!({"query": "query($i: Int) { value needStr(s: $i) }", "variables": {"i": 5}, "valid": false}));
         v.push(json!({"query": "query($i: Int) { value add(a: $i) }", "variables": {"i": 5}, "valid": false}));
@@ -143,4 +147,20 @@ pub fn subtype_inputs(_seed: u64, open: &[String]) -> impl Iterator<Item = Value
         if skip && b.contains("]!") && compatible(b, a) && a != b { continue; }
         out.push(json!({"position": a, "variable": b})); } }
     out.into_iter()
+}
+
+/// C12: hostile but parseable documents through Schema::execute: any answer, never a panic (a panic is reported by the harness as a failed run)
+pub fn hostile(args: &Value) -> Outcome {
+    let o = validate(&json!({"query": args["query"], "variables": args["variables"], "valid": false}));
+    Outcome { holds: true, observed: o.observed, expected: "an answer (data or errors), no panic".into() }
+}
+pub fn hostile_inputs(_seed: u64) -> impl Iterator<Item = Value> {
+    vec![
+        json!({"query": "query($v: [Foo] = [1]) { value }"}), json!({"query": "query($v: [Foo!]! = [[1]]) { value }"}), json!({"query": "query($v: [[Foo]] = [[1], 2]) { add(a: 1) }"}),
+        json!({"query": "query($v: Foo = {a: 1}) { value }"}), json!({"query": "query($v: [Int] = [1, \"x\", [2]]) { optList(l: $v) }"}), json!({"query": "query($v: Inp = {a: {b: 1}}) { inp(i: $v) }"}),
+        json!({"query": "query($v: [Inp!] = [{a: 1}, 5, null]) { value }"}), json!({"query": "{ inp(i: {a: 1, b: {c: [[[]]]}}) }"}), json!({"query": "{ add(a: 99999999999999999999) }"}), json!({"query": "{ add(a: 1e400) }"}),
+        json!({"query": "query($a: Int!) { add(a: $a) }", "variables": {"a": {"x": [1, {"y": null}]}}}), json!({"query": "query($a: Int!) { add(a: $a) }", "variables": {"a": 1e308}}), json!({"query": "query($i: Inp!) { inp(i: $i) }", "variables": {"i": [[{"a": 1}]]}}),
+        json!({"query": "{ value @skip(if: [true]) }"}), json!({"query": "{ value @include(if: $nope) }"}), json!({"query": "{ ...A } fragment A on Query { ...B } fragment B on Query { ...A value }"}),
+        json!({"query": "query A { value } query B { value }"}), json!({"query": "{ __type(name: 5) { name } }"}), json!({"query": "{ __type(name: \"Nope\") { fields { name } } __schema { types { name } } }"}),
+    ].into_iter()
 }
